@@ -121,5 +121,9 @@ pub assume_specification<T>[ Receiver::<T>::recv ](s: &Receiver<T>) -> (r: Resul
                                         broadcast use axiom_queued_is_handed_off, axiom_delivered_will_notify;
 //@endfn
 
+// ---- code this unit's claims rely on that is outside the verifier: pinned to the reference tree (rule ix of ./check) ----
+// the accept loop around the connection task (one task per accepted connection, the loop goes on after an error); the task
+// closure itself is lifted and verified above, its text is left out of what is pinned here
+//@watch src/lib.rs "impl Server" from_listener
 } // verus!
 fn main() {}
